@@ -1336,10 +1336,16 @@ def _run_one(run, S, name, spec, kw, custom):
 
 def report_dropped(run, meta, h=None):
     soft = getattr(h, 'soft', set()) if h is not None else set()
-    for w, msg in meta.get('dropped', {}).items():
+    dropped = meta.get('dropped', {})
+    for w, msg in dropped.items():
         if w in soft:
             if h is not None and w in h.specs:
                 del h.specs[w]
+            # the call on an OWNED receiver (`_mv`) does not type-check although the same call on a reference (`_m`) does: method
+            # lookup reaches a different item there (a by-value method of another signature shadows the trait's `&self` / `&mut self`
+            # method), so `v.method(..)` in user code no longer means the function the property is about
+            if w.endswith('_mv') and (w[:-1] not in dropped) and h is not None and (w[:-1] in h.specs):
+                run.ob('%s:%s:resolution' % (run.prop, w), False, rule='api-present', expected='`v.method(..)` on an owned value resolves to the same method as on a reference', found=msg[:300])
             continue
         run.ob('%s:%s:api-missing' % (run.prop, w), False, rule='api-present', expected='harness wrapper compiles against the current API', found=msg)
 
